@@ -86,6 +86,10 @@ func (t *Transport) Read() ([]byte, error) {
 	if err != nil {
 		return nil, fmt.Errorf("decode: %w", err)
 	}
+	// 圧縮時はDEFLATEストリームの終端で読み込みが止まるため、メッセージの終端(io.EOF)まで読み切ります。
+	if _, err := io.Copy(io.Discard, rd); err != nil {
+		return nil, fmt.Errorf("drain: %w", err)
+	}
 	atomic.AddUint64(t.rxBytesCounter, uint64(n))
 	return m, nil
 }
